@@ -175,6 +175,40 @@ def select(behs, per_class, rng):
 
 
 # ---------------------------------------------------------------------------------------------- systematic paths
+def mut_big_pods(pools, nodes, pods):
+    """Pods too large to move onto the other nodes: SimulateScheduling asks for a replacement."""
+    for p in pods:
+        p["cpu"] = 3000
+
+
+def mut_static_pool(pools, nodes, pods):
+    pools[0].update(static=True, replicas=3)
+
+
+def extra_paths():
+    """Paths on other clusters / through other real components: (name, steps, cluster mutation)."""
+    P = {"a": "QueueRec", "cmd": "A"}
+    Q = {"a": "Quiescent"}
+    L = {"a": "ReplInit", "cmd": "A", "i": 0, "via": "lifecycle"}
+    out = []
+    # replacements computed by the real SimulateScheduling (what Drift / consolidation build)
+    sim = [{"a": "BuildCmd", "cmd": "A", "nodes": ["n1"], "mode": "simulate"}, {"a": "StartCmd", "cmd": "A"}, dict(P)]
+    out.append(("sim-lifecycle", sim + [dict(L), dict(P), Q], mut_big_pods))
+    out.append(("sim-late", sim + [{"a": "Tick", "d": 601}, dict(L), dict(P), Q], mut_big_pods))
+    out.append(("sim-ice", sim + [{"a": "ReplVanish", "cmd": "A", "i": 0, "via": "lifecycle"}, dict(P), Q], mut_big_pods))
+    # static pool: the replacement is a bare template (what StaticDrift builds), pending-disruption bookkeeping
+    st = [{"a": "BuildCmd", "cmd": "A", "nodes": ["n1"], "nrepl": 1, "method": "staticdrift"}, {"a": "StartCmd", "cmd": "A"}, dict(P)]
+    out.append(("static-lifecycle", st + [dict(L), dict(P), Q], mut_static_pool))
+    out.append(("static-late", st + [{"a": "Tick", "d": 601}, dict(L), dict(P), Q], mut_static_pool))
+    out.append(("static-vanish", st + [{"a": "ReplVanish", "cmd": "A", "i": 0}, dict(P), Q], mut_static_pool))
+    out.append(("static-stall", st + [{"a": "ReplLaunch", "cmd": "A", "i": 0}, {"a": "Tick", "d": 601}, dict(P), Q], mut_static_pool))
+    # the provider has no capacity: the real lifecycle controller deletes the replacement
+    two = [{"a": "BuildCmd", "cmd": "A", "nodes": ["n1", "n2"], "nrepl": 2}, {"a": "StartCmd", "cmd": "A"}, dict(P)]
+    out.append(("c2-r2-init-ice", two + [dict(L), dict(P), {"a": "ReplVanish", "cmd": "A", "i": 1, "via": "lifecycle"}, dict(P), Q], None))
+    out.append(("c2-r2-ice-init", two + [{"a": "ReplVanish", "cmd": "A", "i": 0, "via": "lifecycle"}, dict(L, i=1), dict(P), Q], None))
+    return out
+
+
 def base_paths():
     """Canonical paths: (name, steps). Pass = one Queue.Reconcile of command A."""
     P = {"a": "QueueRec", "cmd": "A"}
@@ -236,7 +270,7 @@ def two_command_paths():
     I = lambda c, i: {"a": "ReplInit", "cmd": c, "i": i}
     Q = {"a": "Quiescent"}
     out = []
-    for ca, cb in ((["n1"], ["n1"]), (["n1"], ["n1", "n2"]), (["n1", "n2"], ["n2"]), (["n1"], ["n2"])):
+    for ca, cb in ((["n1"], ["n1"]), (["n1"], ["n1", "n2"]), (["n2"], ["n1", "n2"]), (["n1", "n2"], ["n2"]), (["n1"], ["n2"])):
         tag = "%s-%s" % ("".join(ca), "".join(cb))
         for ra, rb in ((1, 1), (0, 1), (1, 0)):
             out.append(("two-stale-%s-%d%d" % (tag, ra, rb), [B("A", ca, ra), B("B", cb, rb), S("A"), S("B"), P("A"), P("B"), I("A", 0), I("B", 0),
